@@ -33,15 +33,15 @@ theorem keep_reg (m : Mem) (r v a : Nat) (hw : 1 ≤ p.w) (hr : r = 0 ∨ r = p.
     · rw [Mem.readLE_writeLE_disj _ _ _ _ _ _ (by omega)]
 
 theorem tryStop_ok (lib : Placed p B) (fok : FnsOK p ck B dA fa fns) (f : Nat) (ih : StmtOK p ck B dA fa fns f)
-    (F D ra : Nat) (hra : ra < 256 ^ p.w) (lp : Jt) (hlp : lp.cont < 256 ^ p.w ∧ lp.brk < 256 ^ p.w) (md : Md) (sb : Bool)
+    (F D ra : Nat) (hra : ra < 256 ^ p.w) (lp : Jt) (hlp : lp.cont < 256 ^ p.w ∧ lp.brk < 256 ^ p.w) (md : Md) (sb dc : Bool)
     (body handler k : S) (Γ : Gam) (env : Env) (pc o : Nat) (m : Mem) (env' : Env) (tr : List Ev) (res : Res)
     (hpl : PlacedAt p pc (cS (cxOf p ck B dA) fa lp Γ pc o (.tryStop body handler k)))
     (hB : pc + (cS (cxOf p ck B dA) fa lp Γ pc o (.tryStop body handler k)).length ≤ B)
-    (hinv : SInv p md Γ env m F D o ra) (hd : Disj p.w Γ) (hwf : wfS fns lp.vd (Γ.map Prod.fst) (.tryStop body handler k) = true)
+    (hinv : SInv p md Γ env m F D o ra) (hd : Disj p.w Γ) (hwf : wfS fns dc (Γ.map Prod.fst) (.tryStop body handler k) = true)
     (hpk : pkS p.w o (.tryStop body handler k) ≤ D) (ho : p.w ≤ o)
     (hex : exec (256 ^ p.w) (8 * p.w) fns p.w (f + 1) D o env (.tryStop body handler k) = some (env', tr, res))
     (hck : FaultOK ck fns p.w res)
-    (hs : Safe p B dA ra lp md sb fns Γ env' F D o (pc + (cS (cxOf p ck B dA) fa lp Γ pc o (.tryStop body handler k)).length) m res
+    (hs : Safe p B dA ra lp md sb dc fns Γ env' F D o (pc + (cS (cxOf p ck B dA) fa lp Γ pc o (.tryStop body handler k)).length) m res
       (.tryStop body handler k)) :
     Concl p B ra lp md Γ env' F D o pc (pc + (cS (cxOf p ck B dA) fa lp Γ pc o (.tryStop body handler k)).length) m tr res := by
   have hw := lib.hw
@@ -51,10 +51,12 @@ theorem tryStop_ok (lib : Placed p B) (fok : FnsOK p ck B dA fa fns) (f : Nat) (
   have hroom := hinv.fr.room; have htop := hinv.fr.top; have hFM := hinv.fr.lt
   rcases hs with ⟨_, _, h, _⟩ | ⟨hmd, hvd, h1, hst, h2⟩
   · simp [noTry] at h
-  · subst hmd
-    simp only [youLevel, Bool.and_eq_true] at h1
+  · simp only [youLevel, Bool.and_eq_true] at h1
     obtain ⟨⟨⟨hsbT, hntb⟩, hplh⟩, hyk⟩ := h1
-    obtain ⟨hdA, hsz, hFM2⟩ := hst hsbT
+    obtain ⟨hdA, hsz, hFM2, hmdw⟩ := hst hsbT
+    obtain ⟨_, hdc0, hsf⟩ := hmd
+    subst hmdw
+    subst hdc0
     simp only [wfS, Bool.and_eq_true, Bool.not_eq_true'] at hwf
     obtain ⟨⟨⟨hapn, hwb⟩, hwh⟩, hwk⟩ := hwf
     simp only [pkS] at hpk
@@ -162,9 +164,9 @@ theorem tryStop_ok (lib : Placed p B) (fok : FnsOK p ck B dA fa fns) (f : Nat) (
           Concl p B ra { cont := lp.cont, brk := lp.brk, vd := true } (.stop (F + p.w) v) (("%ap", o + p.w) :: Γ) env1 F D (o + p.w)
             (pc + 5) (pc + 5 + nB) mm tr1 res1 := by
       intro mm v hi env1 tr1 res1 hb1 hfo hwld
-      have := ih F D ra hra { cont := lp.cont, brk := lp.brk, vd := true } hlp (.stop (F + p.w) v) sb body (("%ap", o + p.w) :: Γ)
+      have := ih F D ra hra { cont := lp.cont, brk := lp.brk, vd := true } hlp (.stop (F + p.w) v) sb true body (("%ap", o + p.w) :: Γ)
         (upd env "%ap" (5 * p.w)) (pc + 5) (o + p.w) mm env1 tr1 res1 hplB (by rw [hlenB]; omega) hi hd1 (by simpa using hwb)
-        hpkB (by omega) hb1 hfo (Or.inl ⟨(by intro h; cases h), (fun _ => ⟨v, rfl⟩), hntb,
+        hpkB (by omega) hb1 hfo (Or.inl ⟨rfl, ⟨(fun _ => ⟨v, rfl⟩), (fun _ => Or.inl ⟨v, rfl⟩)⟩, hntb,
           hwld.imp id (fun h => ⟨rfl, by rw [hlenB]; exact h⟩)⟩)
       rwa [hlenB] at this
     -- in the world in which `defeat` holds the address of a `halt`, every handler halts
@@ -174,18 +176,19 @@ theorem tryStop_ok (lib : Placed p B) (fok : FnsOK p ck B dA fa fns) (f : Nat) (
       exact Halts.halt (sys := sphinx p) (step_halt (m := m') (halt_at lib))
     have hoD : o ≤ D := by omega
     -- leaving the body: the slot of `%ap` is given back
-    have back : ∀ (v : Nat) (env1 : Env) (mm : Mem),
-        SInv p (.stop (F + p.w) v) (("%ap", o + p.w) :: Γ) env1 mm F D (o + p.w) ra → SInv p .you Γ env1 mm F D o ra :=
-      fun v env1 mm h => decl_back hinv "%ap" (h.toMd (by intro a v h; cases h)) hapn
+    have back : ∀ (env1 : Env) (mm : Mem),
+        SInv p (.stop (F + p.w) (B + off_halt)) (("%ap", o + p.w) :: Γ) env1 mm F D (o + p.w) ra →
+        SInv p (.you (some (F + p.w, B + off_halt))) Γ env1 mm F D o ra :=
+      fun env1 mm h => decl_back hinv "%ap" (h.reMd rfl) hapn
     have backD : ∀ (v : Nat) (env1 : Env) (mm : Mem),
-        SInvD p (.stop (F + p.w) v) (("%ap", o + p.w) :: Γ) env1 mm F D (o + p.w) ra → SInvD p .you Γ env1 mm F D o ra :=
-      fun v env1 mm h => decl_backD hinv "%ap" ⟨h.ap, h.top, h.lt, h.room, h.vars, h.ra, fun a v e => by cases e⟩ hapn
+        SInvD p (.stop (F + p.w) v) (("%ap", o + p.w) :: Γ) env1 mm F D (o + p.w) ra → SInvD p .plain Γ env1 mm F D o ra :=
+      fun v env1 mm h => decl_backD (hinv.toMd rfl) "%ap" ⟨h.ap, h.top, h.lt, h.room, h.vars, h.ra, DReg.none rfl⟩ hapn
     -- results of the body that leave the whole block
-    have convS : ∀ (v : Nat) (env1 : Env) (res1 : Res), res1 ≠ .norm → res1 ≠ .defeat → ∀ (e1 e2 : Nat) (mm : Mem) st',
-        Post p B ra { cont := lp.cont, brk := lp.brk, vd := true } (.stop (F + p.w) v) (("%ap", o + p.w) :: Γ) env1 F D (o + p.w) e1 mm res1 st' →
-        Post p B ra lp .you Γ env1 F D o e2 mm res1 st' := by
-      intro v env1 res1 hn hdf e1 e2 mm st' h
-      have hk : ∀ {m' : Mem}, Keep p.w mm m' (Md.kb (.stop (F + p.w) v) F p.w) → Keep p.w mm m' (Md.you.kb F p.w) :=
+    have convS : ∀ (env1 : Env) (res1 : Res), res1 ≠ .norm → res1 ≠ .defeat → ∀ (e1 e2 : Nat) (mm : Mem) st',
+        Post p B ra { cont := lp.cont, brk := lp.brk, vd := true } (.stop (F + p.w) (B + off_halt)) (("%ap", o + p.w) :: Γ) env1 F D (o + p.w) e1 mm res1 st' →
+        Post p B ra lp (.you (some (F + p.w, B + off_halt))) Γ env1 F D o e2 mm res1 st' := by
+      intro env1 res1 hn hdf e1 e2 mm st' h
+      have hk : ∀ {m' : Mem}, Keep p.w mm m' (Md.kb (.stop (F + p.w) (B + off_halt)) F p.w) → Keep p.w mm m' ((Md.you (some (F + p.w, B + off_halt))).kb F p.w) :=
         fun k => k.mono (by simp [Md.kb])
       cases res1 with
       | norm => exact absurd rfl hn
@@ -194,10 +197,10 @@ theorem tryStop_ok (lib : Placed p B) (fok : FnsOK p ck B dA fa fns) (f : Nat) (
       | retv x => exact ⟨h.1, hk h.2.1, h.2.2⟩
       | div0 => exact h
       | ovf => exact h
-      | brk => exact ⟨h.1, back _ _ _ h.2.1, hk h.2.2⟩
-      | cnt => exact ⟨h.1, back _ _ _ h.2.1, hk h.2.2⟩
+      | brk => exact ⟨h.1, back _ _ h.2.1, hk h.2.2⟩
+      | cnt => exact ⟨h.1, back _ _ h.2.1, hk h.2.2⟩
     have convN : ∀ (envx : Env) (resx : Res), resx ≠ .norm → ∀ (e1 e2 : Nat) st',
-        Post p B ra lp .you Γ envx F D o e1 m resx st' → Post p B ra lp .you Γ envx F D o e2 m resx st' := by
+        Post p B ra lp (.you (some (F + p.w, B + off_halt))) Γ envx F D o e1 m resx st' → Post p B ra lp (.you (some (F + p.w, B + off_halt))) Γ envx F D o e2 m resx st' := by
       intro envx resx hx e1 e2 st' h
       cases resx with
       | norm => exact absurd rfl hx
@@ -210,15 +213,15 @@ theorem tryStop_ok (lib : Placed p B) (fok : FnsOK p ck B dA fa fns) (f : Nat) (
       | cnt => simpa [Post] using h
     -- the rest of the list, from any state at the end of the block reachable from `m`
     have contK : ∀ (env1 : Env) (m1 : Mem) (env3 : Env) (tr3 : List Ev) (res3 : Res),
-        SInv p .you Γ env1 m1 F D o ra → Keep p.w m m1 (Md.you.kb F p.w) →
+        SInv p (.you (some (F + p.w, B + off_halt))) Γ env1 m1 F D o ra → Keep p.w m m1 ((Md.you (some (F + p.w, B + off_halt))).kb F p.w) →
         exec (256 ^ p.w) (8 * p.w) fns p.w f D o env1 k = some (env3, tr3, res3) → FaultOK ck fns p.w res3 →
-        (∀ st', Post p B ra lp .you Γ env3 F D o (pc + 5 + nB + 2 + 3 + nH + (cS (cxOf p ck B (F + p.w)) fa lp Γ (pc + 5 + nB + 2 + 3 + nH) o k).length) m res3 st' →
+        (∀ st', Post p B ra lp (.you (some (F + p.w, B + off_halt))) Γ env3 F D o (pc + 5 + nB + 2 + 3 + nH + (cS (cxOf p ck B (F + p.w)) fa lp Γ (pc + 5 + nB + 2 + 3 + nH) o k).length) m res3 st' →
           ¬ Halts (sphinx p) st') →
-        Concl p B ra lp .you Γ env3 F D o (pc + 5 + nB + 2 + 3 + nH)
+        Concl p B ra lp (.you (some (F + p.w, B + off_halt))) Γ env3 F D o (pc + 5 + nB + 2 + 3 + nH)
           (pc + 5 + nB + 2 + 3 + nH + (cS (cxOf p ck B (F + p.w)) fa lp Γ (pc + 5 + nB + 2 + 3 + nH) o k).length) m1 tr3 res3 :=
       fun env1 m1 env3 tr3 res3 hi1 km1 hk hck3 hfin =>
-        ih F D ra hra lp hlp .you sb k Γ env1 (pc + 5 + nB + 2 + 3 + nH) o m1 env3 tr3 res3 hplK (by omega) hi1 hd hwk hpkK ho hk hck3
-          (Or.inr ⟨rfl, hvd, hyk, fun _ => ⟨rfl, by rw [km1.size]; exact hsz, hFM2⟩, fun st' hp => hfin st' (hp.rebase km1)⟩)
+        ih F D ra hra lp hlp (.you (some (F + p.w, B + off_halt))) sb false k Γ env1 (pc + 5 + nB + 2 + 3 + nH) o m1 env3 tr3 res3 hplK (by omega) hi1 hd hwk hpkK ho hk hck3
+          (Or.inr ⟨⟨rfl, rfl, hsf⟩, hvd, hyk, fun _ => ⟨rfl, by rw [km1.size]; exact hsz, hFM2, rfl⟩, fun st' hp => hfin st' (hp.rebase km1)⟩)
     simp only [exec] at hex
     cases hb1 : exec (256 ^ p.w) (8 * p.w) fns p.w f D (o + p.w) (upd env "%ap" (5 * p.w)) body with
     | none => simp [hb1] at hex
@@ -235,7 +238,7 @@ theorem tryStop_ok (lib : Placed p B) (fok : FnsOK p ck B dA fa fns) (f : Nat) (
         -- `defeat := halt`, `fp := try_fp`, `ap :=` the saved value
         have pro : ∀ m5, SInvD p (.stop (F + p.w) (pc + 5 + nB + 2)) (("%ap", o + p.w) :: Γ) env1 m5 F D (o + p.w) ra → KeepD p.w m3 m5 F →
             ∃ m8, Reach (sphinx p) ⟨pc + 5 + nB + 2, m5⟩ [] ⟨pc + 5 + nB + 2 + 3, m8⟩ ∧ SInv p .plain Γ env1 m8 F D o ra ∧
-              Keep p.w m m8 (Md.you.kb F p.w) := by
+              Keep p.w m m8 ((Md.you (some (F + p.w, B + off_halt))).kb F p.w) ∧ DReg p (.you (some (F + p.w, B + off_halt))) m8 F := by
           intro m5 hi5 k35
           have hsz5 : m5.size = m.size := by rw [k35.size, hsz3]
           -- `try_fp` still holds the frame pointer of the `try`: nothing above the frame was touched
@@ -273,21 +276,28 @@ theorem tryStop_ok (lib : Placed p B) (fok : FnsOK p ck B dA fa fns) (f : Nat) (
           have hi8 : SInv p .plain Γ env1 m8 F D o ra := by
             refine (backD _ _ _ hi5).same ho hoD (by rw [k78.size, hsz7, hsz5]) fr8.fp fr8.ap (fun x h5 hx => ?_) (fun a v e => by cases e)
             rw [k78.hi x (by omega), hlo7 x (by omega) (by omega)]
-          have km8 : Keep p.w m m8 (Md.you.kb F p.w) := by
+          have km8 : Keep p.w m m8 ((Md.you (some (F + p.w, B + off_halt))).kb F p.w) := by
             refine ⟨by rw [k78.size, hsz7], by rw [fr8.fp, fr.fp], by rw [fr8.ap, fr.ap], fun x hx => ?_⟩
             have hx' : F + 2 * p.w ≤ x := hx
             rw [k78.hi x (by omega), ← hm7, Mem.rd_writeLE_other _ _ _ _ _ (by omega), ← hm6, Mem.rd_writeLE_other _ _ _ _ _ (by omega),
               k35.hi x (by omega), km3.hi x hx']
           have rp := (Reach.of_next (sys := sphinx p) t0).trans ((Reach.of_next (sys := sphinx p) t1).trans (Reach.of_next (sys := sphinx p) t2))
-          exact ⟨m8, by simpa [evl, Nat.add_assoc] using rp, hi8, km8⟩
+          have hd8 : DReg p (.you (some (F + p.w, B + off_halt))) m8 F := by
+            intro a v e
+            cases e
+            refine ⟨Nat.le_refl _, by rw [k78.size, hsz7]; omega, by omega, ?_, hhaltM⟩
+            rw [k78.read _ _ (by omega), ← hm7, Mem.readLE_writeLE_disj _ _ _ _ _ _ (by omega), ← hm6,
+              Mem.readLE_writeLE_same _ _ _ _ (by omega)]
+            exact Nat.mod_eq_of_lt hhaltM
+          exact ⟨m8, by simpa [evl, Nat.add_assoc] using rp, hi8, km8, hd8⟩
         -- given what happens from the handler on, in any such state: the two runs of the body
         have close : ∀ (trA : List Ev) (envF : Env) (resF : Res), resF ≠ .defeat →
-            (∀ st', Post p B ra lp .you Γ envF F D o (pc + 5 + nB + 2 + 3 + nH + (cS (cxOf p ck B (F + p.w)) fa lp Γ (pc + 5 + nB + 2 + 3 + nH) o k).length) m resF st' →
+            (∀ st', Post p B ra lp (.you (some (F + p.w, B + off_halt))) Γ envF F D o (pc + 5 + nB + 2 + 3 + nH + (cS (cxOf p ck B (F + p.w)) fa lp Γ (pc + 5 + nB + 2 + 3 + nH) o k).length) m resF st' →
               ¬ Halts (sphinx p) st') →
             (∀ m5, SInvD p (.stop (F + p.w) (pc + 5 + nB + 2)) (("%ap", o + p.w) :: Γ) env1 m5 F D (o + p.w) ra → KeepD p.w m3 m5 F →
               ∃ stE, Reach (sphinx p) ⟨pc + 5 + nB + 2, m5⟩ trA stE ∧
-                Post p B ra lp .you Γ envF F D o (pc + 5 + nB + 2 + 3 + nH + (cS (cxOf p ck B (F + p.w)) fa lp Γ (pc + 5 + nB + 2 + 3 + nH) o k).length) m resF stE) →
-            Concl p B ra lp .you Γ envF F D o pc
+                Post p B ra lp (.you (some (F + p.w, B + off_halt))) Γ envF F D o (pc + 5 + nB + 2 + 3 + nH + (cS (cxOf p ck B (F + p.w)) fa lp Γ (pc + 5 + nB + 2 + 3 + nH) o k).length) m resF stE) →
+            Concl p B ra lp (.you (some (F + p.w, B + off_halt))) Γ envF F D o pc
               (pc + 5 + nB + 2 + 3 + nH + (cS (cxOf p ck B (F + p.w)) fa lp Γ (pc + 5 + nB + 2 + 3 + nH) o k).length) m (tr1 ++ trA) resF := by
           intro trA envF resF hndF hfinF after
           -- in the world in which every defeat call halts the body halts: the jump is taken
@@ -334,29 +344,29 @@ theorem tryStop_ok (lib : Placed p B) (fok : FnsOK p ck B dA fa fns) (f : Nat) (
               have hnd3 : res3 ≠ .defeat := exec_no_defeat _ _ _ _ _ _ _ _ _ _ _ _ _ hyk hk
               rw [List.append_assoc]
               refine close (tr2 ++ tr3) env3 res3 hnd3 h2 (fun m5 hi5 k35 => ?_)
-              obtain ⟨m8, rp, hi8, km8⟩ := pro m5 hi5 k35
-              have hhh := ih F D ra hra lp hlp .plain sb handler Γ env1 (pc + 5 + nB + 2 + 3) o m8 env2 tr2 .norm hplH (by rw [hlenH]; omega)
+              obtain ⟨m8, rp, hi8, km8, hd8⟩ := pro m5 hi5 k35
+              have hhh := ih F D ra hra lp hlp .plain sb false handler Γ env1 (pc + 5 + nB + 2 + 3) o m8 env2 tr2 .norm hplH (by rw [hlenH]; omega)
                 hi8 hd hwh hpkH ho hh2 trivial
-                (Or.inl ⟨(by intro h; cases h), (by intro h; rw [hvd] at h; cases h), plain_noTry _ _ hplh, Or.inl HaltW.plain⟩)
+                (Or.inl ⟨rfl, ⟨(by intro h; rw [hvd] at h; cases h), (by intro h; cases h)⟩, plain_noTry _ _ hplh, Or.inl HaltW.plain⟩)
               rw [hlenH] at hhh
               obtain ⟨st9, r9, hp9⟩ := hhh.2 (nd (by decide))
-              have hp9 := hp9.toYou
+              have hp9 := hp9.toYou rfl hd8 (by decide)
               obtain ⟨pc9, m9⟩ := st9
               simp only [Post] at hp9
               obtain ⟨hpc9, hi9, k89⟩ := hp9
               subst hpc9
-              have km9 : Keep p.w m m9 (Md.you.kb F p.w) := km8.trans' k89
+              have km9 : Keep p.w m m9 ((Md.you (some (F + p.w, B + off_halt))).kb F p.w) := km8.trans' k89
               obtain ⟨stE, rE, hpE⟩ := (contK env2 m9 env3 tr3 res3 hi9 km9 hk hck h2).2 (nd hnd3)
               exact ⟨stE, by simpa using rp.trans (r9.trans rE), hpE.rebase km9⟩
           · simp only [hn2, if_false, Option.pure_def, Option.some.injEq, Prod.mk.injEq] at hex
             obtain ⟨rfl, rfl, rfl⟩ := hex
             refine close tr2 env2 res2 hnd2 h2 (fun m5 hi5 k35 => ?_)
-            obtain ⟨m8, rp, hi8, km8⟩ := pro m5 hi5 k35
-            have hhh := ih F D ra hra lp hlp .plain sb handler Γ env1 (pc + 5 + nB + 2 + 3) o m8 env2 tr2 res2 hplH (by rw [hlenH]; omega)
+            obtain ⟨m8, rp, hi8, km8, hd8⟩ := pro m5 hi5 k35
+            have hhh := ih F D ra hra lp hlp .plain sb false handler Γ env1 (pc + 5 + nB + 2 + 3) o m8 env2 tr2 res2 hplH (by rw [hlenH]; omega)
               hi8 hd hwh hpkH ho hh2 hck
-              (Or.inl ⟨(by intro h; cases h), (by intro h; rw [hvd] at h; cases h), plain_noTry _ _ hplh, Or.inl HaltW.plain⟩)
+              (Or.inl ⟨rfl, ⟨(by intro h; rw [hvd] at h; cases h), (by intro h; cases h)⟩, plain_noTry _ _ hplh, Or.inl HaltW.plain⟩)
             rw [hlenH] at hhh
-            obtain ⟨stE, rE, hpE⟩ := hhh.toYou.2 (nd hnd2)
+            obtain ⟨stE, rE, hpE⟩ := (hhh.toYou rfl hd8 hnd2).2 (nd hnd2)
             exact ⟨stE, by simpa using rp.trans rE, convN env2 res2 hn2 _ _ stE (hpE.rebase km8)⟩
       · simp only [hdft, if_false] at hex
         by_cases hn : res1 = .norm
@@ -375,8 +385,8 @@ theorem tryStop_ok (lib : Placed p B) (fok : FnsOK p ck B dA fa fns) (f : Nat) (
             obtain ⟨hpc5, hi5, k45⟩ := hp
             subst hpc5
             have g := goto_reach lib (pc + 5 + nB) (pc + 5 + nB + 2 + 3 + nH) m5 hplG hendM
-            have km5 : Keep p.w m m5 (Md.you.kb F p.w) := km4.trans' ((show Keep p.w m4 m5 F from k45).mono (by omega))
-            have hkk := contK env1 m5 env3 tr3 res3 (back _ _ _ hi5) km5 hk hck h2
+            have km5 : Keep p.w m m5 ((Md.you (some (F + p.w, B + off_halt))).kb F p.w) := km4.trans' ((show Keep p.w m4 m5 F from k45).mono (by omega))
+            have hkk := contK env1 m5 env3 tr3 res3 (back _ _ hi5) km5 hk hck h2
             have hnd3 : res3 ≠ .defeat := exec_no_defeat _ _ _ _ _ _ _ _ _ _ _ _ _ hyk hk
             obtain ⟨st', r3, hp3⟩ := hkk.2 (nd hnd3)
             have rbody : Reach (sphinx p) ⟨pc + 3 + 1, m3⟩ (tr1 ++ tr3) st' := by simpa using r45.trans (rb.trans (g.trans r3))
@@ -386,9 +396,9 @@ theorem tryStop_ok (lib : Placed p B) (fok : FnsOK p ck B dA fa fns) (f : Nat) (
         · simp only [hn, if_false, Option.pure_def, Option.some.injEq, Prod.mk.injEq] at hex
           obtain ⟨rfl, rfl, rfl⟩ := hex
           obtain ⟨st1, r1, hp1⟩ := (hbody m4 (B + off_halt) hi4 env1 tr1 res1 hb1 hck (Or.inl hW4)).2 (nd hdft)
-          have hp1' : Post p B ra lp .you Γ env1 F D o
+          have hp1' : Post p B ra lp (.you (some (F + p.w, B + off_halt))) Γ env1 F D o
               (pc + 5 + nB + 2 + 3 + nH + (cS (cxOf p ck B (F + p.w)) fa lp Γ (pc + 5 + nB + 2 + 3 + nH) o k).length) m res1 st1 :=
-            (convS _ env1 res1 hn hdft _ _ m4 st1 hp1).rebase km4
+            (convS env1 res1 hn hdft _ _ m4 st1 hp1).rebase km4
           have r1' : Reach (sphinx p) ⟨pc + 3 + 1, m3⟩ tr1 st1 := by simpa using r45.trans r1
           have nh1 : ¬ Halts (sphinx p) ⟨pc + 3 + 1, m3⟩ := (r1'.exec (h2 st1 hp1')).2
           have jn := Reach.jump_not_taken (sys := sphinx p) s3 (fun hh => absurd hh nh1)
